@@ -39,6 +39,26 @@
 (*         parameters -- too few standards                                 *)
 (*   WEAK  REFL with every receiver reading 1e-100 times the signal (a     *)
 (*         badly scaled but consistent instrument)                         *)
+(*   TRM   TRL-shaped but not TRL: through, line with unknown transmission *)
+(*         and a double reflect with the unknown on one port and a         *)
+(*         different, known reflect on the other (10 equations for 7 + 2   *)
+(*         unknowns; identifiable: the known reflect fixes what the second *)
+(*         appearance of the unknown fixes in TRL)                         *)
+(*   TRLM  through, reflect (one unknown on both ports) and a line with    *)
+(*         known non-zero reflection and unknown transmission              *)
+(*         Neither is "two-port TRL": both must be solved iteratively and  *)
+(*         recover the true parameters                                     *)
+(*   SHORT1 exactly one equation short of error terms + unknown            *)
+(*         parameters, 2 or 3 unknowns, not TRL-shaped.  One port: short,  *)
+(*         open and nu unknown reflects (2 + nu equations, 3 + nu          *)
+(*         unknowns).  2x2 8/10-term: through (4), two double reflects     *)
+(*         each with its own unknown on both ports (2 + 2), for nu = 3 a   *)
+(*         single reflect with the third unknown (1): 8 resp. 9 equations  *)
+(*         for 7 + nu unknowns                                             *)
+(*   CORRV known base + nu reflects whose parameters are correlated with   *)
+(*         known vector parameters given on their own frequency grids and  *)
+(*         strongly frequency dependent (truth = the vector's value)       *)
+(*   PRIORV PRIOR with such a vector as the known value                    *)
 (*   PRIOR one port: short, open and a reflect whose parameter is          *)
 (*         correlated with a known value (its truth): the error terms are  *)
 (*         exactly determined and the parameter is held by its prior only  *)
@@ -49,7 +69,7 @@ Types    == {"T8", "U8", "TE10", "UE10", "T16", "U16", "UE14", "E12"}
 EightTen == {"T8", "U8", "TE10", "UE10"}
 Sixteen  == {"T16", "U16"}
 Topos    == {"TRL", "TRLX", "SOLR", "REFL", "SREF", "LINE", "CORR", "FEW",
-             "WEAK", "PRIOR"}
+             "WEAK", "PRIOR", "TRM", "TRLM", "SHORT1", "CORRV", "PRIORV"}
 Limits   == {1, 2, 3, 5, 30, 100}
 TolExps  == {4, 6, 8, 10, 12}
 TolPairs == {<<e, e>> : e \in TolExps} \cup
@@ -57,17 +77,19 @@ TolPairs == {<<e, e>> : e \in TolExps} \cup
 LadderExps == <<4, 6, 8, 10, 12>>
 
 UnknownsOf(topo) ==
-    CASE topo \in {"TRL", "TRLX", "FEW"} -> {2}
-      [] topo \in {"SOLR", "PRIOR"} -> {1}
-      [] topo \in {"CORR", "WEAK"} -> {2, 3}
+    CASE topo \in {"TRL", "TRLX", "FEW", "TRM", "TRLM"} -> {2}
+      [] topo \in {"SOLR", "PRIOR", "PRIORV"} -> {1}
+      [] topo \in {"CORR", "WEAK", "SHORT1"} -> {2, 3}
+      [] topo = "CORRV"           -> {1, 2}
       [] OTHER                    -> {1, 2, 3}
 
 (* which (type, ports, family) combinations exist *)
 Shape(ty, p, topo) ==
     /\ ty \in Types /\ p \in 1..3 /\ topo \in Topos
-    /\ topo \in {"TRL", "TRLX", "FEW"} => ty \in EightTen /\ p = 2
+    /\ topo \in {"TRL", "TRLX", "FEW", "TRM", "TRLM"} => ty \in EightTen /\ p = 2
+    /\ topo = "SHORT1" => (p = 1 \/ (p = 2 /\ ty \in EightTen))
     /\ topo = "WEAK" => p <= 2
-    /\ topo = "PRIOR" => p = 1
+    /\ topo \in {"PRIOR", "PRIORV"} => p = 1
     /\ topo = "SOLR" => ty \in EightTen /\ p = 2
     /\ topo = "LINE" => p >= 2
     /\ p = 3 => ty \notin Sixteen
@@ -103,10 +125,13 @@ Analytic(c) == c.topo = "TRL" /\ c.me = 0
 (* behaviour and success is not demanded.  Nothing is promised about badly *)
 (* scaled readings (WEAK) except a clean return.                           *)
 MustSucceedAt(c, pt, et) ==
-    Analytic(c) \/ (c.lim >= 30 /\ c.me = 0 /\ c.topo \notin {"FEW", "WEAK"})
+    Analytic(c) \/ (c.lim >= 30 /\ c.me = 0 /\
+                    c.topo \notin {"FEW", "WEAK", "SHORT1"})
 
 (* vnacal_new(3) ERRORS, EDOM: "Too few measured standards were given"     *)
-UnderDetermined(c) == c.topo = "FEW"
+(* equations < error terms + unknown parameters => Fail(EDOM), also when  *)
+(* exactly one equation is missing                                         *)
+UnderDetermined(c) == c.topo \in {"FEW", "SHORT1"}
 
 (* Every table configuration is identifiable and well conditioned by       *)
 (* construction (the oracle's error networks are diagonally dominant, the  *)
